@@ -22,8 +22,6 @@ import json
 import os
 import random
 import signal
-import sys
-import time
 import traceback
 
 from vf import common
